@@ -1,8 +1,9 @@
 \* regression config: parser.file not restored after an include returns (must violate PositionFileOK)
 SPECIFICATION Spec
 CONSTANTS
-  MaxProd = 2
+  MaxProd = 1
   MaxDepth = 6
+  OnlyKinds = {"garbage"}
   IncludeGuard = TRUE
   NsNoneCheck = TRUE
   HexBounds = TRUE
